@@ -38,14 +38,15 @@ def main():
                     continue          # the unsigned format cannot represent a decreasing line: outside the property
                 if pairs[0][0] > 0 and fmt != "lines310":
                     continue          # a mapping that begins after offset 0: the lnotab formats give offset 0 the first line implicitly
-                for shape in ("dict", "list"):
+                # "rdict": the same mapping as a dict whose keys were inserted in decreasing order (a dict is its key/value pairs, not their order)
+                for shape in ("dict", "list", "rdict"):
                     ident = "freeze:%s:%d.%d:%s:%s" % (cname, vt[0], vt[1], shape, json.dumps(b["map"]))
                     try:
                         with xd.quiet():
                             opc = op_imports["%d.%d" % vt]
                             co = make(vt, b["first"], clen, opc)
                             attr = "co_linetable" if hasattr(co, "co_linetable") else "co_lnotab"
-                            setattr(co, attr, dict(pairs) if shape == "dict" else list(pairs))
+                            setattr(co, attr, dict(pairs) if shape == "dict" else (dict(reversed(pairs)) if shape == "rdict" else list(pairs)))
                             co.freeze()
                             t = getattr(co, attr)
                             # Code15/Code2.freeze() build the table as text whose code points are the byte values
